@@ -37,6 +37,13 @@ def run(chk):
     rc += [{"id": f"limit-{c['limit']}", "lib": c["lib"]} for c in c01.big_cases()]
     n = 1500 if thorough else 120
     rc += [{"id": f"rnd{i}", "seed": chk.seed * 100000 + i, "structs": 1 + i % 5, "elems": 5 + (i % (60 if thorough else 25))} for i in range(n)]
+    # the same through GdsLibrary::save: into a fresh path, over an empty file, over shorter and over much longer files
+    # (the bytes produced for a library are the content of the file afterwards, whatever the path held before)
+    tmpd = os.path.join(W, "tmp")
+    os.makedirs(tmpd, exist_ok=True)
+    pres = (-1, 0, 10, 70, 5000, 300000)
+    rc += [{"id": f"file{i}", "seed": chk.seed * 100000 + 50000 + i, "structs": i % 4, "elems": 1 + (i % 30),
+            "file": {"path": os.path.join(tmpd, f"save{os.getpid()}_{i}.gds"), "pre": pres[i % len(pres)]}} for i in range(n // 2)]
     rec = vlib.harness("gds_record", rc, W, tag="record", timeout_ms=60000)
     events, meta = [], {}
     nrec = 0
@@ -47,6 +54,9 @@ def run(chk):
         if q["outcome"] != "ok":
             chk.violation("write-panic", "GdsWriter", {"id": c["id"]}, {"msg": q.get("msg")})
             continue
+        if q.get("file_eq_mem") is False:
+            chk.violation("saved-file-differs-from-written-stream", "GdsLibrary::save", {"id": c["id"], "file_held_before": c["file"]["pre"]},
+                          {"file_bytes": q["total"], "well_framed_bytes": q["consumed"]})
         events.append({"e": "lib", "id": str(c["id"]), "lib": q["lib"]})
         events.extend(q["records"])
         events.append({"e": "eof", "total": q["total"]})
